@@ -241,8 +241,37 @@ where
         make_spill()?,
     )?;
 
+    // Seed one strand per head that is not covered by another head. The heads
+    // of a transaction are pairwise concurrent, but the parents of a merge
+    // command received from a peer need not be: a head that is an ancestor of
+    // another head (or a duplicate of it) must not get a strand of its own,
+    // or it would be applied a second time on top of a state that already
+    // contains it.
+    let mut seeded = false;
     for &head in heads {
+        // A head at or below the LCA is the LCA itself, hence an ancestor of
+        // every other head.
+        if head.max_cut <= lca.max_cut {
+            continue;
+        }
+        // A head with further arrivals pending is an ancestor (or duplicate)
+        // of another head; its strand starts once the last descendant has
+        // been processed, exactly like any other convergence point.
+        if !convergence.should_continue(storage, head)? {
+            continue;
+        }
         strands.push(Strand::new(storage, head, None)?)?;
+        seeded = true;
+    }
+    if !seeded {
+        // Every head is the LCA: nothing is concurrent with it.
+        braid.push(lca)?;
+        return Ok(braid);
+    }
+    if let Some(strand) = strands.lone() {
+        // A single head covers all the others: no concurrency, done.
+        braid.push(strand.next)?;
+        return Ok(braid);
     }
 
     // Get latest command
